@@ -2,7 +2,7 @@
 (***************************************************************************)
 (* Implementation-shaped specification of lz.DecoderBuffer: a              *)
 (* transcription of decoder_buffer.go (shrink policy, size guards, the     *)
-(* all-or-nothing writes, the errMatchLen guard).  It is used              *)
+(* all-or-nothing writes).  It is used                                     *)
 (*   - by TLC to check that the code's design refines the DecoderBuf       *)
 (*     envelope (DecoderBufMC.tla),                                        *)
 (*   - as generator of call histories that are replayed into the real      *)
@@ -63,10 +63,9 @@ IWriteMatch(b, m, o, grow) ==
   IN IF o = 0 /\ m > 0 THEN fail(b, "other:offset")
      ELSE IF o > winLen THEN fail(b, "other:offset")
      ELSE LET a == b.bsz - Len(b.data) IN
-          IF m > a /\ m > b.W THEN fail(b, "other:matchlen")
-          ELSE LET sh == IF m > a THEN IShrink(b, m + Len(b.data)) ELSE <<b, 0>>
+          LET sh == IF m > a THEN IShrink(b, m + Len(b.data)) ELSE <<b, 0>>
                    b1 == sh[1]
-               IN IF m > a /\ m > a + sh[2] THEN fail(b1, "full")
+               IN IF m > a /\ m > b1.bsz - Len(b1.data) THEN fail(b1, "full")
                   ELSE LET b2 == [WithData(b1, Copy(b1.data, o, m), grow) EXCEPT !.off = @ + m]
                        IN [st |-> b2, ev |-> Obs(b2, [op |-> "wmatch", m |-> m, o |-> o, n |-> m, err |-> ""])]
 
@@ -81,10 +80,9 @@ IWBLoop(b, seqs, lits, i, grow) ==
           ELSE IF Off(s) > Min(Len(b.data) + Lit(s), b.W) THEN fail(b, "other:offset")
           ELSE LET g == Lit(s) + MLen(s)
                    a == b.bsz - Len(b.data)
-               IN IF g > a /\ g > b.W THEN fail(b, "other:matchlen")
-                  ELSE LET sh == IF g > a THEN IShrink(b, g + Len(b.data)) ELSE <<b, 0>>
+               IN LET sh == IF g > a THEN IShrink(b, g + Len(b.data)) ELSE <<b, 0>>
                            b1 == sh[1]
-                       IN IF g > a /\ g > a + sh[2] THEN fail(b1, "full")
+                       IN IF g > a /\ g > b1.bsz - Len(b1.data) THEN fail(b1, "full")
                           ELSE LET d1 == b1.data \o SubSeq(lits, 1, Lit(s))
                                    b2 == WithData(b1, Copy(d1, Off(s), MLen(s)), grow)
                                IN IWBLoop(b2, seqs, SubSeq(lits, Lit(s) + 1, Len(lits)), i + 1, grow)
